@@ -2,6 +2,7 @@ package transports
 
 import (
 	"sync/atomic"
+	"time"
 
 	"github.com/zishang520/engine.io-go-parser/packet"
 	"github.com/zishang520/engine.io-go-parser/parser"
@@ -12,6 +13,11 @@ import (
 )
 
 var transport_log = log.NewLog("engine:transport")
+
+// orderlyCloseTimeout bounds the time an orderly close of a websocket or
+// webtransport connection waits for the batch that is still being written
+// (the polling transport's close timeout has the same value).
+const orderlyCloseTimeout = 30 * time.Second
 
 type transport struct {
 	events.EventEmitter
